@@ -736,7 +736,7 @@ func (f *DataSourceFilter) selectDuplicateNodes(secondPass bool) {
 			}
 
 			// we should not select a __typename field based on a sibling, unless it is on a root query type
-			return f.nodes.items[i].isTypeName && !IsMutationOrQueryRootType(f.nodes.items[i].TypeName)
+			return f.nodes.items[i].isTypeName && !isMutationOrQueryRootType(f.definition, f.nodes.items[i].TypeName)
 		}, false) {
 			continue
 		}
